@@ -15,7 +15,8 @@ It makes NO claim about indices computed from stream contents (perm[], base[k+1]
 shift amounts or signed overflow: those are numerical."""
 import cfg, conc, codecrules, expandrules, witness, bounds
 from irdb import broken
-from prov import Prov, addr_key, render
+from prov import Prov, addr_key, render, strip_casts
+import rules
 from props import c05, c06, c11, c12, c14
 
 LEVEL = 'other'
@@ -30,6 +31,33 @@ EXEMPT = {
     ('halt', 'handled_signals'): 'caught_index is written only by the signal handler, with the loop-bounded position at '
                                  'which it found the signal in this very table (C16.signals)',
 }
+
+
+def _guard_bound(f, P, ins, ix):
+    """upper bound of an index from a comparison with a constant that guards the access (`for (i = 0; i < N; i++)`)"""
+    from prov import cmp_norm, peel_cond
+    best = bounds.BIG
+    want = strip_casts(ix)
+    for blk, cond, pol in rules.guards(f, P, ins.block.name):
+        core, p2 = peel_cond(cond)
+        cn = cmp_norm(strip_casts(core))
+        if cn is None:
+            continue
+        pred, x, y = cn
+        eff = pol == p2
+        y = strip_casts(y)
+        if strip_casts(x) != want or y[0] != 'const':
+            continue
+        k = y[1]
+        if pred in ('ult', 'slt') and eff:
+            best = min(best, k - 1)
+        elif pred in ('ule', 'sle') and eff:
+            best = min(best, k)
+        elif pred in ('uge', 'sge') and not eff:
+            best = min(best, k - 1)
+        elif pred in ('ugt', 'sgt') and not eff:
+            best = min(best, k)
+    return best
 
 
 def index_closure(ctx, prog):
@@ -60,7 +88,10 @@ def index_closure(ctx, prog):
                     if isinstance(ix, int):
                         res.append((str(ix), ix, d))
                     else:
-                        res.append((render(ix)[:70], U.ub(ix), d))
+                        u = U.ub(ix)
+                        if not u < d:
+                            u = min(u, _guard_bound(f, P, i, ix))
+                        res.append((render(ix)[:70], u, d))
                 sites.setdefault((f.name, gname), []).append((f.loc(i), res))
     ctx.floor('C08 constant-table index sites', sum(len(v) for v in sites.values()), 40)
     for (fn, tb), lst in sorted(sites.items()):
